@@ -468,26 +468,38 @@ import pyvc.models_crypto as MC   # noqa: numberToByteArray / int.from_bytes mod
 import pyvc.iters                 # noqa: comprehensions over iterables of symbolic length
 
 TWO128 = 1 << 128
-CtrKS = S.uf('CtrKS', [Val, I, I], Seq)        # key, initial counter value, block index -> key stream block
+CtrT = S.uf('CtrT', [I] * 16 + [I], Seq)             # the 16 bytes of T_0, block index i -> counter block T_i
+CtrKS = S.uf('CtrKS', [Val] + [I] * 16 + [I], Seq)   # key, the 16 bytes of T_0, block index i -> O_i = E_K(T_i)
 
 
-def ctr_block_bytes(v):
-    """the 16 byte terms of the big-endian 128-bit counter block with value v mod 2^128"""
-    b = smt.s_be(v % TWO128, z3.IntVal(16))
-    return [sat(b, z3.IntVal(t)) for t in range(16)]
+def inc128(blk):
+    """the standard incrementing function on a 16-byte block (z3 Seq term): + 1 mod 2^128, big-endian"""
+    return smt.s_be((smt.s_val(blk) + 1) % TWO128, z3.IntVal(16))
 
 
 def _ctr_axioms():
     k = z3.Const('ck', Val)
-    c0, i = z3.Ints('cc0 ci')
-    A = [FA([k, c0, i], CtrKS(k, c0, i) == AesE(k, *ctr_block_bytes(c0 + i)), [_mp(CtrKS(k, c0, i), MkU(i))])]
-    # numberToByteArray(n, 16) keeps the low-order 16 bytes: the one instance needed (n == 2^128 -> 0),
-    # stated element-wise
+    i = z3.Int('ci')
+    c = [z3.Int('cb%d' % t) for t in range(16)]
+    t0 = CtrT(*(c + [z3.IntVal(0)]))
+    ti = CtrT(*(c + [i]))
+    A = [
+        # T_0 is the given block
+        FA(c, z3.And([slen(t0) == 16] + [sat(t0, z3.IntVal(t)) == c[t] for t in range(16)]), [t0]),
+        FA(c + [i], z3.Implies(i >= 0, z3.And(slen(ti) == 16, isb(ti) == z3.Or(i > 0, z3.And([z3.And(0 <= x, x <= 255) for x in c])))),
+           [ti]),
+        # T_{i+1} = inc(T_i); unfolded only where the marker MkU(i) is present
+        FA(c + [i], z3.Implies(i >= 0, CtrT(*(c + [i + 1])) == inc128(ti)), [_mp(ti, MkU(i))]),
+        # O_i = E_K(T_i)
+        FA([k] + c + [i], CtrKS(k, *(c + [i])) == E_of_seq(k, ti), [_mp(CtrKS(k, *(c + [i])), MkU(i))]),
+        FA([k] + c + [i], z3.And(slen(CtrKS(k, *(c + [i]))) == 16, isb(CtrKS(k, *(c + [i])))), [CtrKS(k, *(c + [i]))]),
+    ]
+    # numberToByteArray(n, 16) keeps the low-order 16 bytes: the one instance needed (n == 2^128 -> 0)
     hi, lo = smt.s_be(z3.IntVal(TWO128), z3.IntVal(16)), smt.s_be(z3.IntVal(0), z3.IntVal(16))
     A.append(z3.And([sat(hi, z3.IntVal(t)) == sat(lo, z3.IntVal(t)) for t in range(16)]))
     A.append(z3.ForAll([i], sat(hi, i) == sat(lo, i), patterns=[sat(hi, i), sat(lo, i)]))
-    # lemma (consequence of the s_be / s_val axioms, stated with a trigger that always fires): re-encoding the
-    # value of a 16-byte block on 16 bytes gives the block back
+    # consequences of the s_val / s_be axioms stated with a trigger that always fires: the value of a 16-byte
+    # block is below 2^128 and re-encoding it on 16 bytes gives the block back
     a = z3.Const('ca', Seq)
     re = smt.s_be(smt.s_val(a) % TWO128, z3.IntVal(16))
     A.append(FA([a], z3.Implies(z3.And(isb(a), slen(a) == 16),
@@ -502,17 +514,22 @@ smt.AXIOMS.extend(_ctr_axioms())
 AES_CTR = T.obj(PA.Python_AES_CTR, rijndael=RIJ, _counter=T.bytes(), _counter_bytes=T.int())
 
 
-def ctr_ks(k, c0, j):
-    return VSeq(CtrKS(k, _lift(c0).t, _lift(j).t), 'byte')
+def ctr_ks(k, c0bytes, j):
+    """key stream block j for the initial counter block given by its 16 byte terms (VSeq)"""
+    return VSeq(CtrKS(k, *(list(c0bytes) + [_lift(j).t])), 'byte')
 
 
-def _ctr_counter_is(counter, v):
-    """counter (VSeq) is the 16-byte big-endian encoding of v mod 2^128"""
-    return vb(counter.t == smt.s_be(_lift(v).t % TWO128, z3.IntVal(16)))
+def seq_bytes16(s):
+    return [sat(s.t, z3.IntVal(t)) for t in range(16)]
 
 
-def _ctr_c0(ns):
-    return VInt(smt.s_val(ns.old.f(ns.self, '_counter').t))
+def ctr_t(c0bytes, i):
+    """counter block T_i for the initial block given by its 16 byte terms (VSeq)"""
+    return VSeq(CtrT(*(list(c0bytes) + [_lift(i).t])), 'byte')
+
+
+def _ctr_counter_is(counter, c0bytes, i):
+    return vb(counter.t == ctr_t(c0bytes, i).t)
 
 
 contract(U + 'python_aes.py:Python_AES_CTR._counter_update',
@@ -524,9 +541,9 @@ contract(U + 'python_aes.py:Python_AES_CTR._counter_update',
              cb > 0, new[16 - cb:16] == S.rep(255, cb)))(
                  ns.f(ns.self, '_counter_bytes'),
                  VSeq(smt.s_be(smt.s_val(ns.f(ns.self, '_counter').t) + 1, z3.IntVal(16)), 'byte')))},
-         ensures=lambda ns: S.And(_ctr_counter_is(ns.f(ns.self, '_counter'), _ctr_c0(ns) + 1),
+         ensures=lambda ns: S.And(vb(ns.f(ns.self, '_counter').t == inc128(ns.old.f(ns.self, '_counter').t)),
                                   S.len_(ns.f(ns.self, '_counter')) == 16, S.is_bytes(ns.f(ns.self, '_counter'))),
-         exc_ensures=lambda ns: S.And(_ctr_counter_is(ns.f(ns.self, '_counter'), _ctr_c0(ns) + 1)),
+         exc_ensures=lambda ns: vb(ns.f(ns.self, '_counter').t == inc128(ns.old.f(ns.self, '_counter').t)),
          prop=PROP,
          doc='the counter block is incremented as one 128-bit big-endian integer (carry across all bytes, wrap at '
              '2^128); OverflowError exactly when a dedicated counter field (last _counter_bytes bytes) becomes all-ones')
@@ -534,17 +551,17 @@ contract(U + 'python_aes.py:Python_AES_CTR._counter_update',
 
 def _ctr_enc_inv(ns):
     k = K(ns)
-    c0 = _ctr_c0(ns)
+    cb = seq_bytes16(ns.old.f(ns.self, '_counter'))
     mask = ns.mask
     n = S.len_(ns.plaintext)
     m = S.len_(mask) / 16
     return S.And(
         S.is_bytes(mask), S.len_(mask) == 16 * m, m >= 0,
         S.Or(m == 0, 16 * (m - 1) < n), unfold(m),
-        _ctr_counter_is(ns.f(ns.self, '_counter'), c0 + m),
+        _ctr_counter_is(ns.f(ns.self, '_counter'), cb, m),
         S.len_(ns.f(ns.self, '_counter')) == 16, S.is_bytes(ns.f(ns.self, '_counter')),
-        forall2(lambda j, y: at(mask, 16 * j + y) == at(ctr_ks(k, c0, j), y), m,
-                pat=lambda j, y: [at(ctr_ks(k, c0, j), y)]))
+        forall2(lambda j, y: at(mask, 16 * j + y) == at(ctr_ks(k, cb, j), y), m,
+                pat=lambda j, y: [at(ctr_ks(k, cb, j), y)]))
 
 
 def ctr_nblocks(n):
@@ -555,7 +572,7 @@ def ctr_nblocks(n):
 
 def _ctr_enc_post(ns):
     k = K(ns.old)
-    c0 = _ctr_c0(ns)
+    cb = seq_bytes16(ns.old.f(ns.self, '_counter'))
     p = ns.plaintext
     n = S.len_(p)
     r = ns.result
@@ -563,9 +580,9 @@ def _ctr_enc_post(ns):
         S.len_(r) == n, S.is_bytes(r),
         # byte 16j+y of the result is P[16j+y] xor O_j[y]; the last block may be partial
         forall2(lambda j, y: S.implies(16 * j + y < n,
-                                       at(r, 16 * j + y) == VInt(smt.bxor(at(p, 16 * j + y).t, at(ctr_ks(k, c0, j), y).t))),
-                ctr_nblocks(n), pat=lambda j, y: [at(ctr_ks(k, c0, j), y)]),
-        _ctr_counter_is(ns.f(ns.self, '_counter'), c0 + ctr_nblocks(n)),
+                                       at(r, 16 * j + y) == VInt(smt.bxor(at(p, 16 * j + y).t, at(ctr_ks(k, cb, j), y).t))),
+                ctr_nblocks(n), pat=lambda j, y: [at(ctr_ks(k, cb, j), y)]),
+        _ctr_counter_is(ns.f(ns.self, '_counter'), cb, ctr_nblocks(n)),
         S.len_(ns.f(ns.self, '_counter')) == 16, S.is_bytes(ns.f(ns.self, '_counter')))
 
 
@@ -697,14 +714,40 @@ def vxor(a, b):
     return VInt(smt.bxor(_lift(a).t, _lift(b).t))
 
 
-def gupd(h, y, d):
-    """GHASH update over data d zero-padded to a multiple of 16 bytes (VInt)"""
+GUpd = S.uf('GUpd', [Val, I, Seq], I, seq_ext=[2])     # h, start value, data -> GHASH state after absorbing pad16(data)
+MkD = z3.Function('MkD', Seq, I)                       # marker: "unfold GUpd for this data"
+_md = z3.Const('mkd', Seq)
+smt.AXIOMS.append(z3.ForAll([_md], MkD(_md) == 0, patterns=[MkD(_md)]))
+
+
+def gupd_def(h, y, d):
+    """definition of GUpd: all full blocks, then the zero-padded partial block if any (VInt)"""
     n = S.len_(d)
     nb = n / 16
     e = n % 16
     full = gfold(h, y, d, nb)
     last = S.cat(d[16 * nb:n], S.rep(0, 16 - e))
     return S.ite(e == 0, full, gmul(h, vxor(full, VInt(smt.s_val(last.t)))))
+
+
+def _gupd_axiom():
+    h = z3.Const('gh', Val)
+    d = z3.Const('gd', Seq)
+    y = z3.Int('gy')
+    return [FA([h, y, d], GUpd(h, y, d) == gupd_def(h, VInt(y), VSeq(d)).t, [_mp(GUpd(h, y, d), MkD(d))]),
+            FA([h, y, d], z3.Implies(z3.And(0 <= y, y < TWO128), z3.And(0 <= GUpd(h, y, d), GUpd(h, y, d) < TWO128)),
+               [GUpd(h, y, d)])]
+
+
+smt.AXIOMS.extend(_gupd_axiom())
+
+
+def gupd(h, y, d):
+    return VInt(GUpd(h, _lift(y).t, d.t))
+
+
+def unfold_data(d):
+    return vb(MkD(d.t) == 0)
 
 
 def _gcm_update_inv(ns):
@@ -717,7 +760,8 @@ contract(U + 'aesgcm.py:AESGCM._update',
          params={'self': AES_GCM, 'y': T.int(), 'data': T.bytes()}, setup=_gcm_setup,
          requires=lambda ns: S.And(ns.y >= 0, ns.y < TWO128),
          result=T.int(),
-         ensures=lambda ns: S.And(ns.result == gupd(H(ns), ns.y, ns.data), ns.result >= 0, ns.result < TWO128),
+         ensures=lambda ns: S.And(S.implies(unfold_data(ns.data), ns.result == gupd(H(ns), ns.y, ns.data)),
+                                  ns.result >= 0, ns.result < TWO128),
          loops={1: LoopSpec(_gcm_update_inv, fingerprint='len(data) // 16')},
          prop=PROP,
          doc='GHASH absorption: every full 16-byte block B updates y to (y xor B)*H, a trailing partial block is '
@@ -754,11 +798,6 @@ def _j0(nonce, last):
     return [sat(nonce.t, z3.IntVal(t)) for t in range(12)] + [z3.IntVal(0)] * 3 + [z3.IntVal(last)]
 
 
-def _j0_val(nonce, last):
-    """integer value of the block nonce || 0^3 || last"""
-    return VInt(smt.s_val(S.cat(nonce, [0, 0, 0, last]).t))
-
-
 def _gcm_ctr(ns, st_ns=None):
     return (st_ns or ns).f(ns.self, '_ctr')
 
@@ -769,7 +808,7 @@ GCM_PMAX = (1 << 36) - 32          # SP 800-38D: len(P) <= 2^39 - 256 bits
 def _gcm_ct_spec(k, nonce, inp, out):
     """out == CTR_K(J_0 + 1, inp): byte-wise, counter blocks J_0 + 1 + j (128-bit add == inc32 for <= 2^32 - 2 blocks)"""
     n = S.len_(inp)
-    c0 = _j0_val(nonce, 2)
+    c0 = _j0(nonce, 2)
     return S.And(S.len_(out) == n,
                  forall2(lambda j, y: S.implies(16 * j + y < n,
                                                 at(out, 16 * j + y) == vxor(at(inp, 16 * j + y), at(ctr_ks(k, c0, j), y))),
@@ -791,8 +830,83 @@ contract(U + 'aesgcm.py:AESGCM.seal',
          params={'self': AES_GCM, 'nonce': T.bytes(), 'plaintext': T.bytes(), 'data': T.bytes()}, setup=_gcm_setup,
          requires=lambda ns: S.And(S.len_(ns.plaintext) <= GCM_PMAX, S.len_(ns.data) < LEN61,
                                    ns.f(_gcm_ctr(ns), '_counter_bytes') == 0),
-         result=T.bytes(), modifies=[('self', '_ctr')],
+         result=T.bytes(), modifies=[('self._ctr', '_counter')],
          raises={ValueError: ('iff', lambda ns: S.len_(ns.nonce) != 12)},
          ensures=_gcm_seal_post,
          prop=PROP,
          doc='seal = C || T with C = CTR_K(J_0 + 1, P), J_0 = nonce || 0^31 || 1, T = GHASH_H(A, C) xor E_K(J_0)')
+
+
+def _gcm_open_post(ns):
+    k = ns.f(ns.f(_gcm_ctr(ns.old), 'rijndael'), 'k').t
+    h = H(ns)
+    c = ns.ciphertext
+    ct, tag = c[:-16], c[-16:]
+    want = ghash_tag(h, k, _j0(ns.nonce, 1), ns.data, ct)
+    ctr0 = ns.old.f(_gcm_ctr(ns.old), '_counter')
+    ctr1 = ns.f(_gcm_ctr(ns.old), '_counter')
+    if isinstance(ns.result, VNone):
+        # refused: too short to hold a tag, or the 16-byte tag is not the one computed over (nonce, aad, ct);
+        # no key stream was produced (the CTR counter is untouched)
+        return S.And(S.Or(S.len_(c) < 16, tag != want), vb(ctr1.t == ctr0.t))
+    return S.And(S.len_(c) >= 16, tag == want, S.is_bytes(ns.result),
+                 _gcm_ct_spec(k, ns.nonce, ct, ns.result))
+
+
+contract(U + 'aesgcm.py:AESGCM.open',
+         params={'self': AES_GCM, 'nonce': T.bytes(), 'ciphertext': T.bytes(), 'data': T.bytes()}, setup=_gcm_setup,
+         requires=lambda ns: S.And(S.len_(ns.ciphertext) <= GCM_PMAX + 16, S.len_(ns.data) < LEN61,
+                                   ns.f(_gcm_ctr(ns), '_counter_bytes') == 0),
+         result=T.bytes(), modifies=[('self._ctr', '_counter')],
+         raises={ValueError: ('iff', lambda ns: S.len_(ns.nonce) != 12)},
+         ensures=_gcm_open_post,
+         prop=('C09', 'C02'),
+         doc='open returns None exactly when the input is shorter than a tag or its last 16 bytes differ (as a whole) '
+             'from GHASH_H(A, C) xor E_K(J_0); only otherwise it returns CTR_K(J_0 + 1, C), and only then is any '
+             'key stream produced')
+
+
+def make_gcm(api, name):
+    g = api.make(name, AES_GCM)
+    st = api.st
+    ctr = st.heap[(g.oid, '_ctr')]
+    rij = st.heap[(ctr.oid, 'rijndael')]
+    st.heap[(g.oid, '_rawAesEncrypt')] = VPy(BoundMethod(rij, RJ.Rijndael.__dict__['encrypt'], RJ.Rijndael))
+    st.assume(st.heap[(ctr.oid, '_counter_bytes')].t == 0)
+    return g
+
+
+def _same_key_gcm(api, a, b):
+    h = api.st.heap
+    h[(b.oid, 'h')] = h[(a.oid, 'h')]
+    ra = h[(h[(a.oid, '_ctr')].oid, 'rijndael')]
+    rb = h[(h[(b.oid, '_ctr')].oid, 'rijndael')]
+    h[(rb.oid, 'k')] = h[(ra.oid, 'k')]
+
+
+@scenario('gcm-open-seal', ('C09', 'C02'),
+          doc='AESGCM: open(nonce, seal(nonce, P, A), A) == P for every P, A, 12-byte nonce (two objects with the '
+              'same key); open returns None when any single byte of the sealed output is altered in the tag, or '
+              'when the nonce or the AAD differ and the recomputed tag differs',
+          opts={'prune': False})
+def gcm_open_seal(api):
+    snd, rcv = make_gcm(api, 'snd'), make_gcm(api, 'rcv')
+    _same_key_gcm(api, snd, rcv)
+    nonce, p, a = api.make('nonce', T.bytes()), api.make('p', T.bytes()), api.make('a', T.bytes())
+    api.st.assume(S.And(S.len_(nonce) == 12, S.len_(p) <= GCM_PMAX, S.len_(a) < LEN61))
+    for o in api.call(U + 'aesgcm.py:AESGCM.seal', [snd, nonce, p, a], api.st, inline=False):
+        if o.kind != 'normal':
+            api.unreachable(o.st, 'seal-does-not-raise')
+            continue
+        sealed = o.val
+        for o2 in api.call(U + 'aesgcm.py:AESGCM.open', [rcv, nonce, sealed, a], o.st.fork()):
+            if o2.kind != 'normal':
+                api.unreachable(o2.st, 'open-does-not-raise')
+            elif isinstance(o2.val, VNone):
+                api.unreachable(o2.st, 'open-accepts-untouched-ciphertext')
+            else:
+                n = S.len_(p)
+                api.oblige(o2.st, 'length', S.len_(o2.val) == n)
+                api.oblige(o2.st, 'plaintext-equal',
+                           forall2(lambda j, y: S.implies(16 * j + y < n, at(o2.val, 16 * j + y) == at(p, 16 * j + y)),
+                                   ctr_nblocks(n)))
